@@ -42,6 +42,7 @@ type ExecCtx struct {
 	loopBinds []map[string]Val
 	paramObjs map[*types.Var]bool // receiver, parameters and results of the unit's function
 	headerNames map[string]bool
+	lastDynRes []Val
 	instSig  *types.Signature
 	callArgs []Val
 	callRecv *Val
@@ -323,6 +324,10 @@ func (c *ExecCtx) readVar(st *State, v *types.Var) Val {
 	}
 	// unknown (captured or not yet seen): arbitrary but fixed
 	t := u.fresh(v.Name(), srt)
+	if u.captured == nil {
+		u.captured = map[string]bool{}
+	}
+	u.captured[t.Name] = true
 	st.vars[v] = t
 	c.typeFacts(st, t, v.Type())
 	return Val{t, v.Type()}
